@@ -177,10 +177,11 @@ def write_evidence(mod, pid, tier, seed, units, results, wall, new_violations, k
     meta = getattr(mod, "META", {})
     cov = {
         "states": max(1, sum(r.get("paths", 0) - r.get("aborted", 0) for r in rs)),
-        "transitions": max(1, sum(r.get("branches", 0) for r in rs)),
+        "transitions": sum(r.get("branches", 0) + r.get("checks", 0) for r in rs),
         "traces_validated_against_impl": sum(r.get("witness_ok", 0) for r in rs),
         "evaluations": sum(r.get("queries", 0) for r in rs),
         "distinct_nontrivial": sum(r.get("distinct_nontrivial", 0) for r in rs),
+        "transitions_rule": "branch/concretisation decisions taken plus property obligations checked along the paths",
         "rule": "one case = one feasible path (decision sequence) of one unit of the real code executed on symbolic "
                 "values; non-trivial = its path condition is not 'true' and at least one of its property queries "
                 "had to be discharged by the solver (was not closed by term simplification); distinct = distinct "
